@@ -93,7 +93,13 @@ def rule_count_band(mode, cutoff, allv):
     # trimmed t: largest t with cum[t-1] < c
     t_hi = int(np.sum(cum < c + tol))  # most that may be trimmed
     t_lo = int(np.sum(cum < c - tol))  # least that must be trimmed
-    return N - t_hi, N - t_lo
+    lo, hi = N - t_hi, N - t_lo
+    # values that tie with the smallest kept value may be kept as well (the
+    # rule cannot tell them apart); this is not the bond-limit tie finding
+    if 1 <= hi < N:
+        vtol = EPS * max(smax, 1e-300)
+        hi += int(np.sum(np.abs(desc[hi:] - desc[hi - 1]) <= vtol))
+    return lo, hi
 
 
 def run_truncated(x, via, **kw):
